@@ -41,6 +41,11 @@ CLAIMS = {
          "that fallible conversions are not hoisted out of the element loop, that each copy visits every element once in order (R1), that every copy has a value-producing arm (R5), that the six dot comparisons return from the pre-match before any list inspection (R3), "
          "and that the list-list length test with error exit comes before any value is produced and only callback operators are diverted earlier (R4). IEEE semantics of the primitives are not decided.",
          BASE_NOTE, "DESIGN.md §4 C11"),
+ "C12": ("table agreement of the expected-ordering sets across the five copies (operation signatures) + structural signatures of Value::equals / Value::compare arms + pattern tables of the unchecked built-ins",
+         "Exhaustive static decision of: the expected-ordering sets of < <= > >= equal the canonical table in the dot pre-match, the scalar / list-list / list-scalar / scalar-list copies and ugt/ult/ugte/ulte (R1, 24 instances); != and .!= are Not of the same equals call as == and .== in every copy (R2); "
+         "equals and compare use == and partial_cmp of one std type per pair (f64, bool, str), lists and records are compared structurally with an exact `!=` length test and by-key lookup, other kinds are never equal / never ordered, compare's pairs are a subset of equals' (R3); "
+         "list ordering returns the first non-Equal element ordering, then len(left) vs len(right) (R4); the unchecked built-ins answer false, never an error, when incomparable (R5). Transitivity and trichotomy follow from std's orders and are not re-proved.",
+         BASE_NOTE, "DESIGN.md §4 C12"),
  "C17": ("exact-rational lint of the literal unit table + MIR dominance / who-may-call on units::convert",
          "Exhaustive static decision, for every row of the literal unit catalogue, of: identifier uniqueness (R1), metric/binary prefix "
          "ratios in exact rationals (R2/R2b), positive literal coefficients (R3), temperature maps composing to the identity symbolically (R4), "
